@@ -118,6 +118,19 @@ def chargeText (q : Int) : List Char :=
 
 def atomText (T : Table) (x : Atom) : List Char := isoText T x.z x.a ++ chargeText x.q
 
+/-- the atom is one the grammar can name in table `T`: its element has a symbol the symbol
+    regex reads, the isotope is defined (or carries its own symbol: D, T), the charge is one of
+    the element's ions -/
+def nameable (T : Table) (x : Atom) : Bool :=
+  match T.find? (fun e => e.z = x.z ∧ e.alias = 0) with
+  | none => false
+  | some e0 =>
+    symOK e0.sym &&
+    (if x.a = 0 then decide (x.q = 0 ∨ x.q ∈ e0.ions)
+     else match T.find? (fun e => e.z = x.z ∧ e.alias = x.a) with
+       | some e1 => symOK e1.sym && decide (x.q = 0 ∨ x.q ∈ e1.ions)
+       | none => decide (x.a ∈ e0.isos) && decide (x.q = 0 ∨ x.q ∈ e0.ions))
+
 /-- Python `count == 1` on the exact value -/
 def Q.isOne (q : Q) : Bool := q.num == q.den
 
@@ -129,6 +142,20 @@ def strFrag (T : Table) (c : Q) : Frag Q → List Char
 def strItems (T : Table) : Items Q → List Char
   | .nil => []
   | .cons c f r => strFrag T c f ++ strItems T r
+end
+
+def qisNil : Items Q → Bool
+  | .nil => true
+  | .cons _ _ _ => false
+
+mutual
+def okFrag (T : Table) : Frag Q → Bool
+  | .atom x => nameable T x
+  | .group g => !qisNil g && okItems T g
+/-- the structures C13 quantifies over: positive counts, nameable atoms, no empty group -/
+def okItems (T : Table) : Items Q → Bool
+  | .nil => true
+  | .cons c f r => decide (0 < c.num) && decide (0 < c.den) && okFrag T f && okItems T r
 end
 
 /-- `Formula.__str__`: `self.name if self.name else _str_atoms(self.structure)`
